@@ -158,8 +158,10 @@ func printSiteCharStats(al align.Alignment, only string) (err error) {
 		indexonly = -1
 	} else {
 		if indexonly, ok = profile.NameIndex(onlyr[0]); !ok {
+			// The character is absent from the alignment: a column of zeros
+			fmt.Fprintf(os.Stdout, "\t%c\n", onlyr[0])
 			for site := 0; site < al.Length(); site++ {
-				fmt.Fprintf(os.Stdout, "%d0%d\n", site, 0)
+				fmt.Fprintf(os.Stdout, "%d\t%d\n", site, 0)
 			}
 			return
 		}
